@@ -1,7 +1,7 @@
 """C20 — tickets are never forged, duplicated, zeroed or merged incorrectly.
 
 (A) correspondence: programs over TICKET / READ_TICKET / SPLIT_TICKET / JOIN_TICKETS mixed with
-    DUP, DUP n, SWAP, DROP, DIG, DUG, PAIR, UNPAIR, CAR, CDR, SOME, NONE, IF_NONE, NIL, CONS, IF_CONS, ITER,
+    DUP, DUP n, SWAP, DROP, DIG, DUG, PAIR, UNPAIR, CAR, CDR, SOME, NONE, IF_NONE, NIL, CONS, IF_CONS, ITER, MAP,
     PUSH run by the real pytezos Interpreter (the self address is switched between top-level segments
     to obtain several ticketers) vs Michelson/Tickets.v `exec_from` evaluated inside coqc.
 (B) the property's own oracle on the interpreter's final stack: no ticket with amount 0; for every
@@ -224,6 +224,23 @@ class RefMachine:
             for x in items:
                 self.stack.insert(0, x)
                 self.run(i[1])
+        elif op == 'MAP':
+            (l,) = self.pop(1)
+            if l[0] != 'list':
+                raise Stuck('MAP: not a list')       # a pair is iterated by pytezos but PairType.from_items does not exist
+            items = []
+            for x in l[2]:
+                self.stack.insert(0, x)
+                self.run(i[1])
+                (y,) = self.pop(1)
+                items.append(y)
+            if items:
+                t0 = type_of(items[0])
+                if any(type_of(y) != t0 for y in items[1:]):
+                    raise Stuck('MAP: heterogeneous result')
+                self.stack.insert(0, ('list', t0, items))
+            else:
+                self.stack.insert(0, l)
         elif op == 'PUSH_NAT':
             if i[1] < 0:
                 raise Stuck('negative nat')
@@ -263,8 +280,8 @@ def instr_text(i):
         return f'{op} {ty_text(i[1])}'
     if op in ('IF_NONE', 'IF_CONS'):
         return f'{op} {{ {prog_text(i[1])} }} {{ {prog_text(i[2])} }}'
-    if op == 'ITER':
-        return f'ITER {{ {prog_text(i[1])} }}'
+    if op in ('ITER', 'MAP'):
+        return f'{op} {{ {prog_text(i[1])} }}'
     if op == 'PUSH_NAT':
         return f'PUSH nat {i[1]}'
     if op == 'PUSH_STR':
@@ -339,8 +356,8 @@ def coq_instr(i):
         return f'({op} {coq_ty(i[1])})'
     if op in ('IF_NONE', 'IF_CONS'):
         return f'({op} {coq_prog(i[1])} {coq_prog(i[2])})'
-    if op == 'ITER':
-        return f'(ITER {coq_prog(i[1])})'
+    if op in ('ITER', 'MAP'):
+        return f'({op} {coq_prog(i[1])})'
     if op == 'PUSH_NAT':
         return f'(PUSH_NAT {cZ(i[1])})'
     if op in ('PUSH_STR', 'SELF_IS'):
@@ -482,7 +499,7 @@ def random_instr(rng, depth=0):
     if k == 19:
         return ('PUSH_STR', rng.choice(STRS))
     if k == 22 and depth < 2:
-        return ('ITER', [random_instr(rng, depth + 1) for _ in range(rng.randrange(0, 3))])
+        return (rng.choice(['ITER', 'MAP']), [random_instr(rng, depth + 1) for _ in range(rng.randrange(0, 3))])
     if k in (20, 21) and depth < 2:
         return (rng.choice(['IF_NONE', 'IF_CONS']), [random_instr(rng, depth + 1) for _ in range(rng.randrange(0, 3))],
                 [random_instr(rng, depth + 1) for _ in range(rng.randrange(0, 3))])
@@ -525,7 +542,7 @@ def applicable(rng, m, depth):
     if top and top[0] in ('some', 'none') and depth < 3:
         out += [('IF_NONE',)] * 6
     if top and top[0] == 'list' and depth < 3:
-        out += [('IF_CONS',)] * 3 + [('ITER',)] * 3
+        out += [('IF_CONS',)] * 3 + [('ITER',)] * 3 + [('MAP',)] * 3
     if top and top[0] == 'pair' and depth < 3 and rng.random() < 0.1:
         out += [('ITER',)]
     if len(s) >= 2:
@@ -566,6 +583,18 @@ def gen_block(rng, m, n, depth, p_bad):
             if stuck:
                 return prog, True
             continue
+        if i[0] == 'MAP' and len(i) == 1:
+            top = m.stack[0]
+            if top[2]:
+                probe = RefMachine(m.self)
+                probe.stack = [top[2][0]] + list(m.stack[1:])
+                body, _ = gen_block(rng, probe, rng.randrange(0, 3), depth + 1, p_bad)
+                if rng.random() < 0.5:
+                    body = rng.choice([[], [('SOME',)], [('READ_TICKET',), ('DROP',)], [('PUSH_NAT', 1), ('PAIR',)], [('DROP',), ('PUSH_NAT', 1)],
+                                       [('READ_TICKET',), ('SWAP',), ('DROP',)], [('DUP',)]])
+            else:
+                body = [random_instr(rng, depth + 1) for _ in range(rng.randrange(0, 3))]
+            i = ('MAP', body)
         if i[0] == 'ITER' and len(i) == 1:
             top = m.stack[0]
             items = top[2] if top[0] == 'list' else [top[1], top[2]]
@@ -639,6 +668,16 @@ def split_join_unit_cases(rng, addrs):
     out.append((a0, tk(5) + two + [('ITER', [('PAIR',), ('JOIN_TICKETS',), ('IF_NONE', [('PUSH_NAT', 99)], [])])]))
     out.append((a0, tk(5) + [('SELF_IS', a1)] + two + [('ITER', [('PAIR',), ('JOIN_TICKETS',), ('IF_NONE', [('PUSH_NAT', 99)], [])])]))
     out.append((a0, [('PUSH_NAT', 1), ('PUSH_NAT', 2), ('PAIR',), ('ITER', [('DROP',)])]))
+    out.append((a0, two + [('MAP', [])]))
+    out.append((a0, two + [('MAP', [('READ_TICKET',), ('DROP',)])]))
+    out.append((a0, two + [('MAP', [('READ_TICKET',), ('SWAP',), ('DROP',)])]))
+    out.append((a0, two + [('MAP', [('DUP',)])]))
+    out.append((a0, two + [('MAP', [('SOME',)]), ('ITER', [('IF_NONE', [], [('DROP',)])])]))
+    out.append((a0, two + [('MAP', [('DROP',)])]))
+    out.append((a0, two + [('MAP', [('PUSH_NAT', 1), ('PUSH_NAT', 1), ('PAIR',), ('SWAP',), ('SPLIT_TICKET',)])]))
+    out.append((a0, [('NIL', ('ticket', 'nat')), ('MAP', [('DUP',)])]))
+    out.append((a0, [('PUSH_NAT', 1), ('PUSH_NAT', 2), ('PAIR',), ('MAP', [])]))
+    out.append((a0, tk(3) + [('PUSH_NAT', 5), ('NIL', 'nat'), ('SWAP',), ('CONS',), ('PUSH_NAT', 6), ('CONS',), ('MAP', [('DROP',), ('PUSH_STR', 'a')])]))
     out.append((a0, tk(4) + tk(6) + [('PAIR',), ('ITER', [('SOME',)])]))
     out.append((a0, [('PUSH_NAT', 1), ('ITER', [('DROP',)])]))
     out.append((a0, tk(4) + [('ITER', [('DROP',)])]))
@@ -683,7 +722,7 @@ def has(prog, names):
             return True
         if i[0] in ('IF_NONE', 'IF_CONS') and (has(i[1], names) or has(i[2], names)):
             return True
-        if i[0] == 'ITER' and has(i[1], names):
+        if i[0] in ('ITER', 'MAP') and has(i[1], names):
             return True
     return False
 
@@ -739,7 +778,7 @@ def run(ctx: lib.Ctx) -> None:
         nt = has(prog, ('SPLIT_TICKET', 'JOIN_TICKETS', 'READ_TICKET')) or (has(prog, ('TICKET',)) and has(prog, ('DUP', 'DUPN')))
         ctx.case((addr, repr(prog)), nontrivial=nt, kind=f'{kind}:{obs[0]}',
                  sample={'self': addr, 'program': prog_text([i for i in prog])[:400], 'result': to_json(obs)})
-        for name in ('TICKET', 'READ_TICKET', 'SPLIT_TICKET', 'JOIN_TICKETS', 'DUP', 'DUPN', 'IF_NONE', 'IF_CONS', 'CONS', 'ITER', 'SELF_IS'):
+        for name in ('TICKET', 'READ_TICKET', 'SPLIT_TICKET', 'JOIN_TICKETS', 'DUP', 'DUPN', 'IF_NONE', 'IF_CONS', 'CONS', 'ITER', 'MAP', 'SELF_IS'):
             if has(prog, (name,)):
                 ctx.dist['uses ' + name] += 1
         if ref_run(addr, prog)[1].lenient:
